@@ -490,6 +490,54 @@ class Interp:
             self._records = recs
         return self._records
 
+    def _name_pattern(self, e, recv, env):
+        """regular expression of the attribute names an expression can denote, when it is spelled out enough: an f-string
+        with a constant part of at least 8 characters, or an entry `self.TABLE[…]` / `TABLE.get(…)` of a class-level dict
+        (literal or comprehension) whose values all are such f-strings / constants. None otherwise."""
+        import re as _re
+
+        def of_value(v):
+            if isinstance(v, ast.Constant) and isinstance(v.value, str):
+                return _re.escape(v.value)
+            if isinstance(v, ast.JoinedStr):
+                parts, const_len = [], 0
+                for p_ in v.values:
+                    if isinstance(p_, ast.Constant):
+                        parts.append(_re.escape(str(p_.value)))
+                        const_len += len(str(p_.value))
+                    else:
+                        parts.append(r"\w*")
+                return "".join(parts) if const_len >= 8 else None
+            return None
+        if isinstance(e, ast.JoinedStr):
+            return of_value(e)
+        tab = None
+        if isinstance(e, ast.Subscript):
+            tab = e.value
+        elif isinstance(e, ast.Call) and isinstance(e.func, ast.Attribute) and e.func.attr == "get" and len(e.args) == 1:
+            tab = e.func.value
+        if isinstance(tab, ast.Attribute) and isinstance(tab.value, ast.Name) and tab.value.id in ("self", "cls") \
+                and recv is not None and recv.k == "obj":
+            pats = set()
+            for cn in sorted(recv.cls):
+                if cn not in self.pm.classes:
+                    return None
+                _, t = self.pm._class_const(cn, tab.attr)
+                vals = None
+                if isinstance(t, ast.Dict):
+                    vals = list(t.values)
+                elif isinstance(t, ast.DictComp):
+                    vals = [t.value]
+                if not vals:
+                    return None
+                for v in vals:
+                    p_ = of_value(v)
+                    if p_ is None:
+                        return None
+                    pats.add(p_)
+            return "|".join(f"(?:{p_})" for p_ in sorted(pats)) if pats else None
+        return None
+
     def const_test(self, t, env):
         """True / False when the test compares two strings that are constants on this path; else None"""
         if isinstance(t, ast.Compare) and len(t.ops) == 1 and isinstance(t.ops[0], (ast.Eq, ast.NotEq, ast.In, ast.NotIn)):
@@ -1357,6 +1405,27 @@ class Interp:
                 # an attribute of something that is not a model object (a record of an external library): a plain value
                 # whatever the name
                 return raw(alld, deg=a0.deg)
+            if nm is None and a0.k == "obj":
+                # a name taken from a table of the class whose entries all have one spelled-out shape —
+                # f"{kind}_update_nb_of_instances" — designates one of the methods of the class of that shape: the outcome
+                # is one of theirs (every one of them is analysed)
+                pat = self._name_pattern(e.args[1], a0, env)
+                if pat is not None:
+                    import re as _re
+                    outs, sel = [], self.ev(e.args[1], env, cx)
+                    for cn in sorted(a0.cls):
+                        if cn not in self.pm.classes:
+                            continue
+                        names = {f_.name for k_ in self.pm.mro(cn) if k_ in self.pm.classes for f_ in self.pm.own_methods(k_)}
+                        for mname in sorted(x for x in names if _re.fullmatch(pat, x)):
+                            owner, m = self.pm.find_method(cn, mname)
+                            if m is not None and not is_property(m):
+                                outs.append(V("meth", meths=[(cn, owner, m, a0.is_self)], deps=sel.deps))
+                    if outs:
+                        ms = []
+                        for o in outs:
+                            ms += o.meths
+                        return V("meth", meths=ms, deps=sel.deps)
             if nm is None:
                 cx.unknown.append(f"getattr with non-constant name: {norm(e)} in {where[1]}")
                 return V("E", deps=alld)
